@@ -145,9 +145,31 @@ func (tr *seqTransport) RoundTrip(creq *http.Request) (*http.Response, error) {
 	out := &http.Response{
 		Status: fmt.Sprintf("%d %s", res.StatusCode, http.StatusText(res.StatusCode)), StatusCode: res.StatusCode,
 		Proto: "HTTP/1.1", ProtoMajor: 1, ProtoMinor: 1, Header: res.Header.Clone(),
-		Body: io.NopCloser(bytes.NewReader(rb)), ContentLength: int64(len(rb)), Request: creq,
+		Body: framedBody(res.Header, rb, sreq.Method, res.StatusCode), ContentLength: -1, Request: creq,
 	}
 	return out, nil
+}
+
+// framedBody gives a response body the framing a real HTTP/1.1 exchange would
+// impose: with an announced Content-Length, a handler that wrote fewer bytes
+// makes the client see an unexpected EOF, and bytes beyond it are never sent.
+// Without Content-Length the body simply ends (chunked / close-delimited).
+func framedBody(h http.Header, rb []byte, method string, status int) io.ReadCloser {
+	cl := h.Get("Content-Length")
+	if cl == "" || method == "HEAD" || status == 204 || status == 304 {
+		return io.NopCloser(bytes.NewReader(rb))
+	}
+	var n int
+	if _, err := fmt.Sscanf(cl, "%d", &n); err != nil || n < 0 {
+		return io.NopCloser(bytes.NewReader(rb))
+	}
+	if n < len(rb) {
+		return io.NopCloser(bytes.NewReader(rb[:n]))
+	}
+	if n > len(rb) {
+		return &FaultBody{Data: rb, Fault: &Fault{Seam: "resp", At: len(rb), Kind: "unexpected-eof"}}
+	}
+	return io.NopCloser(bytes.NewReader(rb))
 }
 
 // ---- API steps -------------------------------------------------------------------
@@ -263,6 +285,15 @@ func (ex *executor) apiStep(idx int, st *Step) {
 		return tr.lastReq.URL.Path
 	}
 	ex.memBegin()
+	if m := ex.mem(); m != nil {
+		m.begin(st.Faults)
+		m.streamFault, m.streamFired = nil, false
+		for i := range st.Faults {
+			if st.Faults[i].Seam == "backend-stream" {
+				m.streamFault = &st.Faults[i]
+			}
+		}
+	}
 	nt := func(kind string) {
 		ex.res.Stats.NT("C05|" + a.Fn + "|" + kind + "|" + nameClass(a.Name) + "|" + cfg.Store + "|" + cfg.Endpoint)
 	}
@@ -349,10 +380,19 @@ func (ex *executor) apiStep(idx int, st *Step) {
 			if err == nil {
 				bad("open-bytes", fmt.Sprintf("Open(%q) succeeded although the backend has no such file", a.Name))
 			}
+		case (err != nil || rerr != nil) && ex.streamFaultFired():
+			// the backend's own stream broke: failing is the right outcome
+			ex.probe("open-failed-after-backend-stream-fault")
 		case err != nil || rerr != nil:
 			bad("open-bytes", fmt.Sprintf("Open(%q) failed (%v / %v) although the backend has the file", a.Name, err, rerr))
 		default:
+			if m := ex.mem(); m != nil {
+				m.directCall = true
+			}
 			brc, e := ex.fs.Open(ctx, sp)
+			if m := ex.mem(); m != nil {
+				m.directCall = false
+			}
 			if e == nil {
 				bdata, _ := io.ReadAll(brc)
 				brc.Close()
